@@ -122,6 +122,27 @@ func predNoMutate(c Case) (r Result) {
 		}
 		return true
 	}
+	if raceBuild {
+		// "no write to any part of it happens during the call": under the race detector a second
+		// goroutine reads the whole document while Search runs, so that even a write of the value
+		// that was already there (invisible to the comparison below) is reported
+		breadcrumb(c)
+		stop := make(chan struct{})
+		done := make(chan struct{})
+		go func() {
+			defer close(done)
+			for {
+				select {
+				case <-stop:
+					return
+				default:
+					_ = deepRead(doc)
+				}
+			}
+		}()
+		defer func() { close(stop); <-done }()
+		r.class("with-concurrent-reader")
+	}
 	if !check("Search(expr, doc)", libSearch(expr, doc)) {
 		return
 	}
